@@ -11,7 +11,7 @@ from asyncfix.protocol import FIXProtocol44
 
 from .core import RecLogger
 
-APP_TYPES = ["D", "8", "F", "G", "9", "U1", "j"]
+APP_TYPES = ["D", "8", "F", "G", "9", "U1", "j", "n"]  # (n = XMLnonFIX: an application message for this library)
 
 
 class AppMixin:
